@@ -32,10 +32,21 @@ func (w *jsonWorld) compare(e *drv.Srv, name, counter, keySuffix string, ordered
 		w.r.Inconc(fmt.Sprintf("GET /equipment on %s: status %d err %v", name, st, err))
 		return
 	}
+	missing := 0
 	for _, a := range w.want {
 		w.r.Eval(1)
 		w.r.Count(counter, 1)
 		g, ok := got[a.ID]
+		if !ok && !ordered {
+			// Server-to-server forwarding is fire-and-forget by design (a
+			// failed POST to the peer is logged and skipped, e.g. when the
+			// peer just closed the idle keep-alive connection): an absent
+			// authorization on the peer decides nothing.
+			w.r.Count("json.forward_not_delivered_not_judged", 1)
+			w.r.Count(counter, -1)
+			missing++
+			continue
+		}
 		if !ok {
 			w.r.Violationf("json-transport:authorization-missing"+keySuffix, map[string]interface{}{"server": name, "authorization": fmt.Sprintf("%+v", a), "json": string(a.JSON())},
 				"server %s does not list authorization %d (lat bits %016x, long bits %016x)", name, a.ID, math.Float64bits(a.Lat), math.Float64bits(a.Long))
@@ -48,7 +59,7 @@ func (w *jsonWorld) compare(e *drv.Srv, name, counter, keySuffix string, ordered
 			return
 		}
 	}
-	if len(got) != len(w.want) {
+	if len(got) != len(w.want)-missing {
 		w.r.Violationf("json-transport:unexpected-authorizations"+keySuffix, map[string]interface{}{"server": name}, "server %s lists %d authorizations, %d were submitted", name, len(got), len(w.want))
 	}
 	file := e.ReadFile("equipment-authorizations.dat")
@@ -65,11 +76,21 @@ func (w *jsonWorld) compare(e *drv.Srv, name, counter, keySuffix string, ordered
 		}
 		return
 	}
+	// The peer only ever hears from server A. A refusal in its log means that
+	// what A's JSON encoder sent was not the authorization A had accepted
+	// (an undelivered POST leaves no line there).
+	for _, ln := range bytes.Split(e.ReadFile("server.log"), []byte("\n")) {
+		if bytes.Contains(ln, []byte("Failed to authorize equipment")) || bytes.Contains(ln, []byte("Failed to decode request body")) {
+			w.r.Violationf("json-transport:forwarded-authorization-refused-by-peer", map[string]interface{}{"server": name, "log_line": string(ln)},
+				"server %s refused an authorization forwarded by server A, which had accepted it: %s", name, ln)
+			return
+		}
+	}
 	set := map[string]bool{}
 	for _, a := range w.want {
 		set[string(a.Bytes())] = true
 	}
-	if len(file) != 148*len(w.want) {
+	if len(file) != 148*(len(w.want)-missing) {
 		w.r.Violationf("disk-record-differs:equipment-authorizations.dat"+keySuffix, map[string]interface{}{"server": name, "file_bytes": len(file)}, "authorization file of server %s has %d bytes for %d authorizations", name, len(file), len(w.want))
 		return
 	}
@@ -138,6 +159,14 @@ func childJSON(b run.Batch, r *ev.Result) {
 		au = au.Signed(a.GCA.Priv)
 		run.Op("authorize %s", au.JSON())
 		st, body, err := a.Authorize(au)
+		for try := 0; err != nil && try < 3; try++ {
+			// The test-mode server closes idle keep-alive connections after
+			// 2.5 s; a POST that races with that close fails with EOF in the
+			// harness's HTTP client. Submitting the identical authorization
+			// again is idempotent (answered 200 without a second record).
+			r.Count("json.post_retried_after_transport_error", 1)
+			st, body, err = a.Authorize(au)
+		}
 		r.Eval(1)
 		if err != nil {
 			r.Inconc("POST /authorize-equipment: " + err.Error())
@@ -234,6 +263,10 @@ func childJSON(b run.Batch, r *ev.Result) {
 	peer := refenc.AuthServer{Pub: bs.Key.Pub, Location: "127.0.0.1", HTTP: bs.HTTP, TCP: bs.TCP, UDP: bs.UDP}.Signed(a.GCA.Priv)
 	run.Op("authorized-server %s", peer.JSON())
 	st, body, err := a.PostServer(peer)
+	for try := 0; err != nil && try < 3; try++ {
+		r.Count("json.post_retried_after_transport_error", 1)
+		st, body, err = a.PostServer(peer) // a repeated identical server authorization is answered 200 and changes nothing
+	}
 	r.Eval(1)
 	if err != nil {
 		r.Inconc("POST /authorized-servers: " + err.Error())
